@@ -35,6 +35,9 @@ LeafSeq(t) ==
     [] t.c = "Con" -> LET RECURSIVE go(_)
                           go(k) == IF k > Len(t.terms) THEN <<>> ELSE LeafSeq(t.terms[k]) \o go(k + 1)
                       IN go(1)
+    [] t.c = "Cat" -> LET RECURSIVE gc(_)
+                          gc(k) == IF k > Len(t.parts) THEN <<>> ELSE LeafSeq(t.parts[k]) \o gc(k + 1)
+                      IN gc(1)
     [] OTHER -> <<>>
 
 RECURSIVE SumProductShaped(_)
@@ -49,6 +52,7 @@ SumProductShaped(t) ==
               /\ \E j \in 1..Len(t.arg.ins) : t.arg.ins[j][1] = t.subs[k][1]
     [] t.c = "Con" -> /\ t.red \in {APlus, "nullop"} /\ t.bin \in {ATimes, APlus}
                       /\ \A k \in 1..Len(t.terms) : SumProductShaped(t.terms[k])
+    [] t.c = "Cat" -> \A k \in 1..Len(t.parts) : t.parts[k].c = "Ten"      \* a Cat of leaves
     [] OTHER -> FALSE
 
 LeafNames(L) == {L.ins[k][1] : k \in 1..Len(L.ins)}
@@ -85,6 +89,13 @@ DPrimed(t, L) ==
     \* indicator [i = i_p] becomes [sigma(i) = i_p]; cells of L that sigma never reaches get
     \* the unit of plus (what Scatter fills in)
     [] t.c = "Sub" -> [c |-> "Sub", arg |-> DPrimed(t.arg, L), subs |-> t.subs]
+    \* Cat is positionwise: the derivative of a Cat is the Cat of the derivatives of its parts.
+    \* Each part keeps its inputs (zero (x) part = zero with the part's inputs), so the pieces
+    \* still have the sizes they had.
+    [] t.c = "Cat" ->
+         [c |-> "Cat", name |-> t.name, pn |-> t.pn,
+          parts |-> [k \in 1..Len(t.parts) |->
+                       BinT(APlus, DPrimed(t.parts[k], L), BinT(ATimes, UnitTerm(APlus), t.parts[k]))]]
     [] t.c = "Con" ->
          (LET body == FoldBin(t.bin, t.terms) IN
           IF t.red = "nullop" \/ t.vars = <<>> THEN DPrimed(body, L)
@@ -140,6 +151,7 @@ BoundNames(t) ==
     [] t.c = "Red" -> Names(t.vars) \cup BoundNames(t.arg)
     [] t.c = "Sub" -> BoundNames(t.arg)
     [] t.c = "Con" -> Names(t.vars) \cup UNION {BoundNames(t.terms[k]) : k \in 1..Len(t.terms)}
+    [] t.c = "Cat" -> {t.pn} \cup UNION {BoundNames(t.parts[k]) : k \in 1..Len(t.parts)}
     [] OTHER -> {}
 
 \* A name that is reduced somewhere must not also be a free input of the root: otherwise the
@@ -153,6 +165,7 @@ HasSubNode(t) ==
     [] t.c = "Bin" -> HasSubNode(t.l) \/ HasSubNode(t.r)
     [] t.c = "Red" -> HasSubNode(t.arg)
     [] t.c = "Con" -> \E k \in 1..Len(t.terms) : HasSubNode(t.terms[k])
+    [] t.c = "Cat" -> TRUE      \* a Cat re-indexes its parts: same convention as a substitution
     [] OTHER -> FALSE
 
 \* Through an index substitution funsor scatters the adjoint back and sums over EVERY variable
